@@ -203,7 +203,7 @@ def render_file(items, blank=" "):
         it["ln"] = line
         line += t.count("\n")
         it["ln2"] = line if it["k"] != "nl" else it["ln"]
-        if it["k"] in EMITTING:
+        if it["k"] != "nl":
             tk = tokenize(t)
             it["ts"] = [x[1] for x in tk]
             # byte offsets (texts may contain non-ASCII)
